@@ -14,7 +14,6 @@ from vf.model import schema_validate as SV
 from vf.schema import ArgDef, FieldDef, EnumVal, TypeDef, DirectiveDef, DirUse
 
 from tartiflette import Directive, Scalar, create_engine
-from tartiflette.schema.registry import SchemaRegistry
 
 PROPERTY = "C12"
 LEVEL = "model_checking"
@@ -189,7 +188,7 @@ def try_build(sdl, schema_for_registration, skip_scalars=(), directive_impl=None
     finally:
         pass
     ok = eng is not None
-    SchemaRegistry._schemas.pop(name, None)
+    harness.forget(name)
     return ok, "engine built"
 
 
